@@ -10,7 +10,10 @@ Every run:
                  Run.GenAngle = which angle formula Cylinder.quadrature uses (asin|z x a| or atan2(|z x a|, z.a));
   coq-run/C18    Corr.v (comparison functions), Tie.v (table facts by vm_compute lifted to R; the regenerated
                  helpers equal the hand model), Properties.v (property theorems + Print Assumptions);
-  correspondence path lengths of rays of four classes, every quadrature point (exact inside test), weights,
+  correspondence path lengths of rays of six classes on random solids and of rays starting exactly ON the boundary
+                 (end-face planes, edge circles, lateral surface; directions exactly perpendicular / parallel to the
+                 axis, tangent, tilted) of solids on a dyadic grid, compared with the closed-solid value of the exact
+                 model; every quadrature point (exact inside test), weights,
                  the model's points, transmission values and their range / monotonicity / invariances,
                  all compared INSIDE Coq with the hand model coq/C18/Model.v run at exact rationals.
 """
@@ -56,11 +59,17 @@ TRUSTED = [
     'numpy.polynomial leggauss/chebgauss are taken as data (their values are regenerated each run, facts about them are checked, not proved)',
     'coq/Sem/QInst.v rational approximations of sqrt/sin/cos/atan2/asin/exp (correspondence only, relative error < 1e-30)',
     'tools/harness/c18_impl.py + props/C18.py (case generation, exact dyadic serialisation of every observed float); comparisons are executed by Coq',
+    'props/C18.py decisions_robust: selects the rays that are compared with the exact model of the closed solid without the backward-error '
+    'bracket (every floating-point comparison of beam_intersection evaluated exactly or far from its threshold); it assumes that scipp '
+    'evaluates dot / cross with separately rounded products (no fused multiply-add: a x a = 0 and equal products cancel -- observed); '
+    'a wrong selection can only cause a false alarm or a weaker (bracket) comparison',
     'Interval tactic (Coq library) for the bounds |table sum - PI|',
 ]
 ASSUMPTIONS = [
     'theorems are over exact reals for unit axis and unit direction; floating-point evaluation is covered by the correspondence: '
-    'path lengths within 1e-12 max(r,h) (+1e-14 |base-start|) of the exact value of the stored operands, and for nearly tangent rays '
+    'path lengths within 1e-12 max(r,h) (+1e-14 |base-start|) of the exact value of the stored operands (rays whose every floating-point '
+    'decision is evaluated exactly or far from its threshold -- in particular rays that start exactly on an end face, an edge circle or the '
+    'lateral surface of a solid with grid coordinates: 1e-12 max(r,h) + 1e-13 |base-start| of the closed-solid value, no bracket), and for nearly tangent rays '
     'between the exact values for radius r(1-+d), height h(1-+2d), d = min(1e-3, 1e-14 (1+|b|/r)/|n x a|) (backward error of the square root)',
     'quadrature_points_inside is stated for axes with |z x a| = 0 or >= 1e-10 (the source does not rotate below that threshold: '
     'for 0 < |z x a| < 1e-10 the rule is placed for the axis +-z, i.e. tilted by < 1e-10 rad)',
@@ -75,7 +84,10 @@ ASSUMPTIONS = [
     "the Monte-Carlo kinds ('mc') are outside the property (not deterministic)",
 ]
 LEVEL_TEXT = ('Proof (Coq, reals): the model\'s cylinder/slab intervals are exactly the ray parameters inside the solid, the returned '
-              'length is the length of {t>=0 : inside}, invariant under rigid motions and under describing the solid from its other end; '
+              'length is the length of {t>=0 : inside}, invariant under rigid motions and under describing the solid from its other end; the solid is closed: '
+              'a ray perpendicular to the axis from any point of the closed slab (end-face planes included) has the length of its part within the radius, the same at '
+              'every height (r from center_of_base and from the top centre), a ray parallel to the axis from any point of the closed solid (lateral surface included) '
+              'at height z has length h - z / z; '
               'with the atan2 angle every placed quadrature point is inside for every admissible unit axis, weights are positive and sum to '
               'the volume (exactly for the Chebyshev kinds, 4e-12 relative for Gauss-Legendre), centroid and axial moments are exact in the table moments; the transmission of any positive rule '
               'lies in (0, sum w/V], equals sum w/V without attenuation and decreases with mu.  The asin angle of the unfixed source is refuted.')
@@ -344,6 +356,170 @@ def gen_rays(rng, c, n_each):
     return rays
 
 
+# ------------------------------------------------------------------ exactly representable solids, rays ON the boundary
+# Closed solid: a ray that starts in an end-face plane and runs exactly perpendicular to the axis, or starts on the
+# lateral surface and runs exactly parallel to the axis, stays in the boundary of the solid and its path length is the
+# chord / the remaining height (Spec.inside is closed; path_length_is_measure).  The implementation decides these cases
+# with ==, <=, >= on floating-point dot products, so they are only well defined when those dot products are evaluated
+# exactly: the solids below have coordinates on a dyadic grid (multiples of q = 2^e) and axes that are coordinate axes or
+# lie in a coordinate plane (any angle; the third coordinate axis is then an exactly perpendicular direction).
+INPLANE_SPECIAL = [(0.6, -0.8), (0.6, 0.8), (-0.8, -0.6), (0.28, -0.96), (math.sqrt(0.5), math.sqrt(0.5)), (-0.96, 0.28)]
+BOUNDARY_POSITIONS = ['on-base-centre', 'on-top-centre', 'on-base-face', 'on-top-face', 'on-base-edge', 'on-top-edge',
+                      'in-base-plane-outside', 'in-top-plane-outside', 'on-lateral', 'grid-interior', 'grid-beyond-base',
+                      'grid-beyond-top']
+
+
+def unit3(k, sign=1.0):
+    v = [0.0, 0.0, 0.0]
+    v[k] = sign
+    return v
+
+
+def gen_exact_cylinder(rng, i):
+    if i < 6 or (i >= 12 and rng.random() < 0.4):
+        k, sign = (i // 2, 1.0 if i % 2 == 0 else -1.0) if i < 6 else (rng.randrange(3), rng.choice([1.0, -1.0]))
+        a = unit3(k, sign)
+        e1 = unit3((k + 1) % 3, rng.choice([1.0, -1.0]))
+        aname, aligned, p = 'grid:' + '+-'[sign < 0] + 'xyz'[k], True, None
+    else:
+        p = i % 3 if i < 12 else rng.randrange(3)              # the coordinate axis perpendicular to the symmetry axis
+        if i < 12:
+            c, s = INPLANE_SPECIAL[i - 6]
+        else:
+            th = rng.uniform(0, 2 * math.pi)
+            c, s = math.cos(th), math.sin(th)
+            n = math.hypot(c, s)
+            c, s = c / n, s / n
+        a = [0.0, 0.0, 0.0]
+        a[(p + 1) % 3], a[(p + 2) % 3] = c, s
+        e1 = unit3(p, rng.choice([1.0, -1.0]))
+        aname, aligned = 'grid:in-plane-' + ['yz', 'zx', 'xy'][p], False
+    e2 = cross(a, e1)
+    q = 2.0 ** rng.randint(-9, 4)
+    mr, mh = rng.randint(1, 60), rng.randint(1, 60)
+    style = rng.choice(['origin', 'near', 'far'])
+    kmax = {'origin': 0, 'near': 64, 'far': 1 << 20}[style]
+    base = [q * rng.randint(-kmax, kmax) for _ in range(3)]
+    if not aligned and style != 'origin':                      # anywhere within the plane of the axis
+        for j in ((p + 1) % 3, (p + 2) % 3):
+            base[j] = rng.uniform(-1, 1) * (10.0 if style == 'near' else 1e3)
+    return {'axis': a, 'axis_name': aname, 'base': base, 'r': mr * q, 'h': mh * q, 'unit': rng.choice(['mm', 'm']),
+            'e1': e1, 'e2': e2, 'q': q, 'mr': mr, 'mh': mh, 'aligned': aligned}
+
+
+def gen_boundary_rays(rng, c, n_tilted=2):
+    """start points exactly in the base / top plane (centre, face, edge circle, outside the disk), on the lateral
+    surface, and (controls) strictly inside / beyond the caps; directions exactly perpendicular to the axis (inward,
+    outward, tangent, oblique), exactly parallel (both senses) and tilted inward / outward"""
+    a, B, r, h, q = c['axis'], c['base'], c['r'], c['h'], c['q']
+    mr, mh = c['mr'], c['mh']
+    rays = []
+    for pos in BOUNDARY_POSITIONS:
+        us = [c['e1'], [-x for x in c['e1']]] + ([c['e2'], [-x for x in c['e2']]] if c['aligned'] else [])
+        u = rng.choice(us)
+        rho_in = q * (rng.randint(1, mr - 1) if mr > 1 else 0.5)
+        z_in = q * (rng.randint(1, mh - 1) if mh > 1 else 0.5)
+        z, rho = {'on-base-centre': (0.0, 0.0), 'on-top-centre': (h, 0.0), 'on-base-face': (0.0, rho_in), 'on-top-face': (h, rho_in),
+                  'on-base-edge': (0.0, r), 'on-top-edge': (h, r),
+                  'in-base-plane-outside': (0.0, r + q * rng.randint(1, 2 * mr)), 'in-top-plane-outside': (h, r + q * rng.randint(1, 2 * mr)),
+                  'on-lateral': (z_in, r), 'grid-interior': (z_in, rho_in),
+                  'grid-beyond-base': (-q * rng.randint(1, 2 * mh), rho_in), 'grid-beyond-top': (h + q * rng.randint(1, 2 * mh), rho_in)}[pos]
+        s = lin((1, B), (z, a), (rho, u))
+        w = cross(a, u)
+        sg = rng.choice([1.0, -1.0])
+        dirs = [('perp-inward', [-x for x in u]), ('perp-outward', list(u)), ('perp-tangent', [sg * x for x in w]),
+                ('perp-oblique', lin((rng.choice([0.8, -0.8]), u), (rng.choice([0.6, -0.6]), w))),
+                ('axial-up', list(a)), ('axial-down', [-x for x in a])]
+        tilted = [(f'tilted-{"out" if su > 0 else "in"}-{"up" if sa > 0 else "down"}', su, sa) for su in (1.0, -1.0) for sa in (1.0, -1.0)]
+        for name, su, sa in rng.sample(tilted, n_tilted):
+            cu, ca = rng.choice([(1.0, 1.0), (0.6, 0.8), (0.8, 0.6)])
+            dirs.append((name, normalise(lin((su * cu, u), (sa * ca, a)))))
+        for dname, n in dirs:
+            rays.append({'cls': pos, 's': s, 'n': n, 'dir': dname})
+    return rays
+
+
+def isdbl(fr):
+    try:
+        return Fraction(float(fr)) == fr
+    except OverflowError:
+        return False
+
+
+def fl_dot(u, v):
+    """(exact value of u.v, whether the floating-point evaluation gives exactly that value in any order of summation):
+    every product and every partial sum is a double, or there are two non-zero products and they cancel (scipp's
+    dot / cross are not contracted to fused multiply-adds: a x a == 0 and (0,.8,.6).(0,.6,-.8) == 0 are observed)"""
+    pr = [x * y for x, y in zip(u, v)]
+    E = sum(pr)
+    nz = [x for x in pr if x != 0]
+    if not nz or (len(nz) == 2 and nz[0] == -nz[1]):
+        return E, True
+    return E, all(isdbl(x) for x in pr) and all(isdbl(x) for x in (pr[0] + pr[1], pr[0] + pr[2], pr[1] + pr[2], E))
+
+
+def fl_cross(u, v):
+    out, ok = [], True
+    for j, k in ((1, 2), (2, 0), (0, 1)):
+        p1, p2 = u[j] * v[k], u[k] * v[j]
+        out.append(p1 - p2)
+        ok = ok and (p1 == p2 or (isdbl(p1) and isdbl(p2) and isdbl(p1 - p2)))
+    return out, ok
+
+
+def decisions_robust(st, s, n):
+    """True when every comparison beam_intersection takes on this ray (direction parallel to the end faces? start
+    between the planes? direction parallel to the axis? start within the radius? discriminant >= 0?) has the same
+    outcome in floating point as in exact arithmetic on the stored operands -- the compared quantity is either
+    evaluated exactly or far from its threshold -- and the result is well conditioned (|n.a|, |n x a| zero or >= 0.3,
+    discriminant zero-and-exact or not small).  Such rays are compared with the exact model directly (CRayX); all others
+    with the backward-error bracket (CRay)."""
+    a = [Fraction(x) for x in st['axis']]
+    B = [Fraction(x) for x in st['base']]
+    r, h = Fraction(st['r']), Fraction(st['h'])
+    sF = [Fraction(x) for x in s]
+    nF = [Fraction(x) for x in n]
+    b = [x - y for x, y in zip(B, sF)]
+    b_ok = all(isdbl(x) for x in b)
+    bda, bda_ok = fl_dot(b, a)
+    bda_ok = bda_ok and b_ok
+    nda, nda_ok = fl_dot(nF, a)
+    if nda == 0:
+        if not nda_ok:
+            return False
+        scale = max(sum(abs(x) for x in b), h)
+        for thr in (0, -h):
+            if bda == thr:
+                if not bda_ok:
+                    return False
+            elif abs(bda - thr) <= scale / 10 ** 9:
+                return False
+    elif abs(nda) < Fraction(3, 10):
+        return False
+    nxa, nxa_ok = fl_cross(nF, a)
+    nsq, nsq_ok = fl_dot(nxa, nxa)
+    nsq_ok = nsq_ok and nxa_ok
+    if nsq == 0:
+        if not nxa_ok:
+            return False
+        w = [x - bda * y for x, y in zip(b, a)]
+        E = sum(x * x for x in w)
+        if E == r * r:
+            if not (bda_ok and all(isdbl(bda * y) for y in a) and all(isdbl(x) for x in w) and fl_dot(w, w)[1]):
+                return False
+        elif abs(E - r * r) <= max(E, r * r) / 10 ** 9:
+            return False
+    elif nsq < Fraction(9, 100):
+        return False
+    else:
+        bn, bn_ok = fl_dot(b, nxa)
+        s2 = nsq * r * r - bn * bn
+        ex = (nsq_ok and bn_ok and b_ok and isdbl(r * r) and isdbl(nsq * r * r) and isdbl(bn * bn) and isdbl(s2))
+        if not ex and abs(s2) <= (nsq * r * r + bn * bn) / 100:
+            return False
+    return True
+
+
 def rand_rotation(rng):
     k = unitvec(rng)
     th = rng.uniform(0.2, math.pi)
@@ -471,7 +647,27 @@ HEADER = ('From Coq Require Import QArith ZArith String List Uint63.\n'
 FOOTER = 'Eval vm_compute in (report (map check cases)).\n'
 
 
-def build_payload(rng, tier):
+N_EXACT = {True: 14, False: 90}                 # quick / thorough: 6 coordinate axes, 6 special in-plane axes, then random
+
+
+def cyl_payload(c, kinds=(), scalar=False, with_cls=True):
+    """a generated solid with its rays as harness input; scalar: additionally evaluate the first ray of every start
+    position one at a time with 0-d operands"""
+    out = {'axis': [hx(x) for x in c['axis']], 'base': [hx(x) for x in c['base']], 'r': hx(c['r']), 'h': hx(c['h']),
+           'unit': c['unit'], 'kinds': list(kinds), 'axis_name': c['axis_name'],
+           'rays': [dict({'s': [hx(x) for x in ry['s']], 'n': [hx(x) for x in ry['n']]},
+                         **({'cls': ry['cls'], 'dir': ry.get('dir', '')} if with_cls else {})) for ry in c['rays']]}
+    if scalar:
+        seen, idx = set(), []
+        for i, ry in enumerate(c['rays']):
+            if ry['cls'] not in seen:
+                seen.add(ry['cls'])
+                idx.append(i)
+        out['scalar_idx'] = idx
+    return out
+
+
+def build_payload(rng, tier, seed=0):
     n_cyl = 40 if tier == 'quick' else 400
     cyls = []
     for i in range(n_cyl):
@@ -485,6 +681,13 @@ def build_payload(rng, tier):
         cyls.append({'axis': [hx(x) for x in c['axis']], 'base': [hx(x) for x in c['base']], 'r': hx(c['r']), 'h': hx(c['h']),
                      'unit': c['unit'], 'kinds': kinds, 'axis_name': c['axis_name'],
                      'rays': [{'s': [hx(x) for x in ry['s']], 'n': [hx(x) for x in ry['n']], 'cls': ry['cls']} for ry in c['rays']]})
+    # solids on a dyadic grid with rays starting exactly ON the boundary (end-face planes, edge circles, lateral surface)
+    # (their own random stream: the cases that follow stay what they were)
+    rx = random.Random(f'C18-grid-{seed}')
+    for i in range(N_EXACT[tier == 'quick']):
+        c = gen_exact_cylinder(rx, i)
+        c['rays'] = gen_boundary_rays(rx, c, 2)
+        cyls.append(cyl_payload(c, scalar=True))
     trans = []
     for kind, n in (('cheap', 8), ('medium', 4), ('expensive', 2)):
         for i in range(n if tier == 'quick' else 6 * n):
@@ -510,7 +713,7 @@ def build_payload(rng, tier):
 
 def correspondence(ctx):
     rng = random.Random(ctx.seed)
-    payload = build_payload(rng, ctx.tier)
+    payload = build_payload(rng, ctx.tier, ctx.seed)
     res = ctx.run_impl('c18_impl.py', payload)
     terms, descs = [], []
 
@@ -531,8 +734,8 @@ def correspondence(ctx):
         for chk in ('line-sum', 'line-moment1'):
             add(f'(CTable "{chk}" 1 {k})', {'what': 'table', 'check': chk, 'table': f'normalised chebgauss({k})'})
 
-    n_rays = n_points = 0
-    cls_count = {}
+    n_rays = n_points = n_scalar = 0
+    cls_count, exact_count, dir_count = {}, {}, {}
     axis_count = {}
     for ci, (c, r) in enumerate(zip(payload['cyls'], res['cyls'])):
         cdesc = {'axis': [fx(x) for x in c['axis']], 'base': [fx(x) for x in c['base']], 'r': fx(c['r']), 'h': fx(c['h']),
@@ -545,21 +748,34 @@ def correspondence(ctx):
         ct = cyl_term(st)
         acls = axis_class([fx(x) for x in st['axis']])
         axis_count[acls] = axis_count.get(acls, 0) + 1
+        stf = {'axis': [fx(x) for x in st['axis']], 'base': [fx(x) for x in st['base']], 'r': fx(st['r']), 'h': fx(st['h'])}
         for ry, L in zip(c['rays'], r.get('L', [])):
             d = {'what': 'ray', 'class': ry['cls'], 'cylinder': cdesc, 'start': [fx(x) for x in ry['s']],
                  'direction': [fx(x) for x in ry['n']], 'impl_length': L if not L.startswith(('n', 'i', '-i')) else L}
+            if ry.get('dir'):
+                d['direction_class'] = ry['dir']
             if L in ('nan', 'inf', '-inf'):
                 ctx.violation(f'path:{ry["cls"]}:non-finite', f'beam_intersection returned {L} for {d}', {'case': d})
                 continue
             d['impl_length'] = fx(L)
-            add(f'(CRay {ct} {v_term(ry["s"])} {v_term(ry["n"])} {d_term(L)})', d)
+            # every comparison the implementation takes on this ray is decided alike in floating point and exactly
+            # (operands evaluated exactly, or far from the threshold): the closed-solid value of the exact model is
+            # the reference (CRayX); otherwise the backward-error bracket (CRay)
+            exact = decisions_robust(stf, d['start'], d['direction'])
+            d['comparison'] = 'exact-model' if exact else 'bracket'
+            add(f'({"CRayX" if exact else "CRay"} {ct} {v_term(ry["s"])} {v_term(ry["n"])} {d_term(L)})', d)
             n_rays += 1
             cls_count[ry['cls']] = cls_count.get(ry['cls'], 0) + 1
-        if 'L_scalar_check' in r:
-            i, L1 = r['L_scalar_check']
+            if exact:
+                exact_count[ry['cls']] = exact_count.get(ry['cls'], 0) + 1
+            if ry.get('dir'):
+                k2 = ry['dir'].split('-')[0] + (':exact' if exact else ':bracket')
+                dir_count[k2] = dir_count.get(k2, 0) + 1
+        for i, L1 in ([r['L_scalar_check']] if 'L_scalar_check' in r else []) + r.get('L_scalar_checks', []):
             if r['L'][i] != L1:
                 ctx.violation('path:array-vs-scalar', f'beam_intersection differs between array and 0-d operands: {r["L"][i]} vs {L1}',
                               {'cylinder': c, 'ray': c['rays'][i]})
+            n_scalar += 1
         for kind in c['kinds']:
             q = r['quad'][kind]
             ki = KINDS.index(kind)
@@ -654,7 +870,16 @@ def correspondence(ctx):
                 'on the sphere; base at 0 / within 10 / within 1e3; r,h log-uniform 1e-3..1e3 (half with 0.05<=h/r<=20), unit mm or m; '
                 'rays per cylinder: inside start, outside start (aimed/not), exactly parallel to axis or end faces, tangent to the lateral '
                 'surface (tilted) or grazing a rim, NEARLY parallel to the axis (tilt 1e-9..1e-2, around r/h for needles), NEARLY perpendicular '
-                '(n.a 1e-9..1e-2, around h/r for wafers); 10% needles (h/r 1e4..1e6), 10% wafers; quadrature kinds cheap (all), medium (1/3 + special axes), expensive (1/10); '
+                '(n.a 1e-9..1e-2, around h/r for wafers); 10% needles (h/r 1e4..1e6), 10% wafers; '
+                'GRID solids (coordinates multiples of 2^e, r and h 1..60 grid steps, 2e-3..1e3; the 6 coordinate axes, 6 special and then random '
+                'axes at any angle within a coordinate plane; base at 0 / near / far, anywhere within the plane of the axis) with start points '
+                'exactly ON the boundary: centre of the base / top face, on a face, on an edge circle, in a face plane outside the disk, '
+                'on the lateral surface (+ strictly inside / beyond a cap as controls), each with directions exactly perpendicular to the '
+                'axis (inward, outward, tangent, oblique), exactly parallel (both senses) and tilted inward / outward; a ray whose every '
+                'floating-point decision (n.a == 0, 0 <= -(b.a) <= h, n x a == 0, |b_perp| <= r, discriminant >= 0) is evaluated exactly or far '
+                'from its threshold is compared with the closed-solid value of the exact model to 1e-12 max(r,h) + 1e-13 |b| (no bracket); '
+                'one ray per start position also with 0-d operands; '
+                'quadrature kinds cheap (all), medium (1/3 + special axes), expensive (1/10); '
                 'transmission: mu*r in {0.05,0.3,1}, lambda 0.1..20 A, detectors 3..3000 sizes away in random directions, units m/mm, '
                 'a random (possibly improper) orthogonal map + translation and the other-end description; '
                 'DISPLACED set-ups: sample, beam and detectors 1..1e3 m from the coordinate origin (random direction or along a coordinate '
@@ -662,7 +887,9 @@ def correspondence(ctx):
                 '(100..1e5 extents) or both in one call, all kinds; compared with the same set-up translated back to the origin '
                 '(tolerance 1e-9 + 1e-13 D/min(r,h): rounding only), with a rotated + translated copy (quadrature tolerance) and, for '
                 "'cheap' (a near and a far detector) and 'medium' (one detector), with the model (per-point outgoing directions)",
-        'observed': {'rays': n_rays, 'ray_classes': cls_count, 'quadrature_points_tested': n_points, 'axis_classes': axis_count,
+        'observed': {'rays': n_rays, 'ray_classes': cls_count, 'rays_compared_with_the_exact_model': exact_count,
+                     'boundary_ray_directions': dir_count, 'rays_repeated_with_0d_operands': n_scalar,
+                     'quadrature_points_tested': n_points, 'axis_classes': axis_count,
                      'transmission_values': n_T, 'transmission_values_vs_model': n_model, 'angle_formula': getattr(ctx, 'angle', None),
                      'displaced_setups': n_disp,
                      'displaced_detectors': {c: sum(1 for x in disp_seen if x[2] == c) for c in ('near', 'far')},
@@ -848,9 +1075,10 @@ def ray_length_reference(c, s, n):
         t0, t1 = sorted([-da / na, (h - da) / na])
         lo, hi = max(lo, t0), t1
     dxa, nxa = cross(d, a), cross(n, a)
-    A = sum(x * x for x in nxa)
-    B = sum(x * y for x, y in zip(dxa, nxa))
-    C = sum(x * x for x in dxa) - r * r
+    aa = sum(x * x for x in a)                 # the stored axis is a unit vector to rounding only: |p x a|^2 / |a|^2 is the
+    A = sum(x * x for x in nxa) / aa           # squared distance of p from the axis line for any a (a start point exactly r
+    B = sum(x * y for x, y in zip(dxa, nxa)) / aa      # away from the axis is ON the lateral surface, C = 0)
+    C = sum(x * x for x in dxa) / aa - r * r
     if A == 0:
         if C > 0:
             return 0.0, 1.0
@@ -869,14 +1097,22 @@ def ray_length_reference(c, s, n):
 
 
 def search_paths(ctx, broken):
+    """the length of {t >= 0 : start + t direction inside the CLOSED solid} from the definition of `inside`, on random
+    solids (rays of the six classes) and on grid solids with start points exactly on the end-face planes, edge circles
+    and the lateral surface and directions exactly perpendicular / parallel to the axis, tangent, tilted; every ray as
+    an element of an array and the boundary rays also one at a time (0-d operands)"""
     rng = random.Random(ctx.seed + 3)
     cyls, gen = [], []
     for i in range(60 if ctx.tier == 'quick' else 300):
         c = gen_cylinder(rng, i)
         c['rays'] = gen_rays(rng, c, 3)
         gen.append(c)
-        cyls.append({'axis': [hx(x) for x in c['axis']], 'base': [hx(x) for x in c['base']], 'r': hx(c['r']), 'h': hx(c['h']),
-                     'unit': c['unit'], 'kinds': [], 'rays': [{'s': [hx(x) for x in ry['s']], 'n': [hx(x) for x in ry['n']]} for ry in c['rays']]})
+        cyls.append(cyl_payload(c, with_cls=False))
+    for i in range(60 if ctx.tier == 'quick' else 300):
+        c = gen_exact_cylinder(rng, i)
+        c['rays'] = gen_boundary_rays(rng, c, 4)
+        gen.append(c)
+        cyls.append(cyl_payload(c, scalar=True, with_cls=False))
     res = ctx.run_impl('c18_impl.py', {'mode': 'run', 'cyls': cyls, 'trans': []})
     found = []
     for c, r in zip(gen, res['cyls']):
@@ -884,10 +1120,23 @@ def search_paths(ctx, broken):
             continue
         st = {'axis': [fx(x) for x in r['stored']['axis']], 'base': [fx(x) for x in r['stored']['base']],
               'r': fx(r['stored']['r']), 'h': fx(r['stored']['h'])}
+        for i, L1 in r.get('L_scalar_checks', []):
+            if r['L'][i] != L1:
+                ry = c['rays'][i]
+                d = {'what': 'ray', 'class': ry['cls'], 'direction_class': ry.get('dir'), 'cylinder': dict(st, unit=c['unit'], axis_name=c['axis_name']),
+                     'start': ry['s'], 'direction': ry['n'], 'impl_length_in_array': r['L'][i], 'impl_length_0d': L1}
+                ctx.violation('path:array-vs-scalar', f'beam_intersection differs between array and 0-d operands: {brief(d)}',
+                              {'case': d, 'found_by': 'search'})
+                found.append('path:array-vs-scalar')
         for ry, L in zip(c['rays'], r['L']):
             Lf = float(L) if L in ('nan', 'inf', '-inf') else fx(L)
             want, cond = ray_length_reference(st, ry['s'], ry['n'])
-            if cond < 1e-6 or not math.isfinite(want):
+            if ry.get('dir'):
+                # a start point ON the boundary: the statement is evaluated where the floating-point operands decide
+                # every comparison as exact arithmetic does (then exactly tangent rays, cond = 0, are included)
+                if not decisions_robust(st, ry['s'], ry['n']) or not math.isfinite(want):
+                    continue
+            elif cond < 1e-6 or not math.isfinite(want):
                 continue                               # nearly tangent: the correspondence brackets those
             dist = math.sqrt(sum((x - y) ** 2 for x, y in zip(ry['s'], st['base'])))
             tol = 1e-7 * max(st['r'], st['h']) + 1e-9 * dist
@@ -895,6 +1144,8 @@ def search_paths(ctx, broken):
                 key = f'path:{ry["cls"]}'
                 d = {'what': 'ray', 'class': ry['cls'], 'cylinder': dict(st, unit=c['unit'], axis_name=c['axis_name']),
                      'start': ry['s'], 'direction': ry['n'], 'impl_length': Lf, 'length_inside_solid': want}
+                if ry.get('dir'):
+                    d['direction_class'] = ry['dir']
                 ctx.violation(key, f'beam_intersection returns {Lf!r}; the part of the ray inside the solid has length {want!r}: {brief(d)}',
                               {'case': d, 'found_by': 'search'})
                 found.append(key)
@@ -935,8 +1186,18 @@ def replay(ctx, obj):
         c = {'axis': [hx(x) for x in cyl['axis']], 'base': [hx(x) for x in cyl['base']], 'r': hx(cyl['r']), 'h': hx(cyl['h']),
              'unit': cyl.get('unit', 'mm'), 'kinds': [], 'rays': [{'s': [hx(x) for x in case['start']], 'n': [hx(x) for x in case['direction']]}]}
         res = ctx.run_impl('c18_impl.py', {'mode': 'run', 'cyls': [c], 'trans': []})
-        print('observed path length:', [fx(x) for x in res['cyls'][0]['L']], ' (required: the length of the part of the ray inside the solid)')
-        return 1
+        L = res['cyls'][0]['L'][0]
+        Lf = float(L) if L in ('nan', 'inf', '-inf') else fx(L)
+        st = {'axis': list(cyl['axis']), 'base': list(cyl['base']), 'r': cyl['r'], 'h': cyl['h']}
+        want, cond = ray_length_reference(st, case['start'], case['direction'])
+        print(f'observed path length: {Lf!r}; required: the length of the part of the ray inside the (closed) solid = {want!r}'
+              f' (conditioning of the tangency {cond:.3g})')
+        if not math.isfinite(Lf):
+            return 1
+        if cond < 1e-6 and not decisions_robust(st, case['start'], case['direction']):
+            return 1                                   # nearly tangent: the Coq bracket decided
+        dist = math.sqrt(sum((x - y) ** 2 for x, y in zip(case['start'], st['base'])))
+        return 0 if abs(Lf - want) <= 1e-7 * max(st['r'], st['h']) + 1e-9 * dist else 1
     if case.get('what') == 'transmission' and 'payload' in (rep.get('case') or {}):
         t = rep['case']['payload']
         res = ctx.run_impl('c18_impl.py', {'mode': 'run', 'cyls': [], 'trans': [t]})
